@@ -36,6 +36,10 @@ def or (a : Option Bool) (b : Unit → Option Bool) : Option Bool := do
 def copyInto (buf : Bytes) (lo hi : Option Nat) (src : Bytes) : Option Bytes := do
   let lo ← lo; let hi ← hi
   if lo ≤ hi ∧ hi ≤ buf.length ∧ src.length = hi - lo then some (buf.take lo ++ src ++ buf.drop hi) else none
+/-- `&buf[lo..hi]` (`none` = the range is outside the array: panic). -/
+def slice (buf : Bytes) (lo hi : Option Nat) : Option Bytes := do
+  let lo ← lo; let hi ← hi
+  if lo ≤ hi ∧ hi ≤ buf.length then some ((buf.take hi).drop lo) else none
 /-- `Err(KeyTooLongError)` / `Ok(key)` / panic. -/
 def finish : Option (Except Unit SecretKey) → KeyOutcome
   | none => .panic "from_str"
